@@ -221,6 +221,17 @@ def check_stack(c, stack, shape, p, kwnames):
         except Exception as ex:      # noqa
             g = ('raise', type(ex).__name__)
         c.check(g == e, 'C18:double-wrap:behaviour', '%s(*%r, **%r) -> %r but wrapping once -> %r' % (txt, pos, kw, g, e), call)
+        # a decorator that *extends* the signature (argspec_add; perdictable adds expiry / data) stacked on top and inspected:
+        # the wrapped function underneath still reports f's specification
+        import pyg_base as _pb
+        before = spec_of(lhs)
+        ext = _pb.argspec_add(_pb.getargspec(lhs), zz_extra=None)
+        c.check('zz_extra' in list(ext.args) and spec_of(lhs) == before == spec_of(f), 'C18:argspec:stack:after-argspec_add',
+                '%s reports %r after argspec_add(getargspec(.), zz_extra=None), f has %r' % (txt, spec_of(lhs), spec_of(f)), call)
+        top = _pb.perdictable(lhs, on='key')
+        _pb.getargs(top)
+        c.check(spec_of(lhs) == before == spec_of(f), 'C18:argspec:stack:after-extending-decorator',
+                '%s reports %r after perdictable(.) was stacked on it and inspected, f has %r' % (txt, spec_of(lhs), spec_of(f)), call)
     except Exception as e:      # noqa
         c.check(False, 'C18:double-wrap:raises', '%s raised %r' % (txt, e), call)
 
